@@ -468,5 +468,14 @@ func (c *Variant) Equals(obj *Variant) bool {
 // Clone the variant value
 //	Returns: The cloned value of this variant
 func (c *Variant) Clone() *Variant {
-	return NewVariant(c)
+	result := NewVariant(c)
+	// Clone the elements of an array as well: a clone shares nothing with its original
+	if array, ok := result.value.([]*Variant); ok {
+		for index, element := range array {
+			if element != nil {
+				array[index] = element.Clone()
+			}
+		}
+	}
+	return result
 }
